@@ -47,6 +47,9 @@ private name is matched, so renaming, inlining, extracting or merging helpers ca
               tracker uses the two durations for what they are; the set-power outcome channel is lossless:
               each tracker gets its own, unwrapped `new_receiver()` (made per construction, not shared) of the
               very Broadcast the owner publishes SetPowerResult on, with no `limit` below the default (50).
+              The status channel is exactly-once: the Broadcast a tracker's `Sender[ComponentStatus]` comes from has
+              exactly one `new_receiver()` in the owner, made as often as the channel itself (else the pool's loop sees
+              each change once per receiver and publishes that many identical ComponentPoolStatus notifications).
   C16.POOL    the pool tracker's status loop (found by role; what consumers see): for every status
               message and every path consistent with a status value (the enum is closed), the reported
               component ends in `working` only for WORKING, in `uncertain` only for UNCERTAIN and in
@@ -909,6 +912,11 @@ CONTROLS = [
      "                self._current_status.uncertain.add(component_id)\n", "C16.POOL"),
     ("pool status update not published", POOLMOD,
      "            await self._component_status_sender.send(self._current_status)\n", "            pass\n", "C16.POOL"),
+    ("one status channel for the pool, still one receiver per component", POOLMOD,
+     "        for component_id in self._component_ids:\n            channel: Broadcast[ComponentStatus] = Broadcast(\n"
+     "                name=f\"component_{component_id}_status\"\n            )\n",
+     "        channel: Broadcast[ComponentStatus] = Broadcast(name=\"component_status\")\n"
+     "        for component_id in self._component_ids:\n", "C16.WIRE"),
 ]
 
 
@@ -1162,6 +1170,115 @@ def _check_outcome_channel(run: Run, prog: Program, owner: Any, fn: FuncInfo, ca
               instance=f"{site}: outcome receiver buffer")
 
 
+# ------------------------------------------------------------------------------ the per-component status channel
+def _status_param(prog: Program, callee: Any) -> str | None:
+    """The constructor parameter through which a per-component tracker reports: annotated `Sender[ComponentStatus]`
+    (found by its type, not its name; `Sender[ComponentPoolStatus]` of the pool tracker is another channel)."""
+    import re
+    init = prog.resolve_method(callee, "__init__")
+    if init is None:
+        return None
+    a = init.node.args
+    hits = [x.arg for x in a.posonlyargs + a.args + a.kwonlyargs
+            if x.annotation is not None and re.search(r"\bSender\[\s*([\w.]*\.)?ComponentStatus\s*\]", u(x.annotation))]
+    return hits[0] if len(hits) == 1 else None
+
+
+def _runs_once(owner: Any, fn: FuncInfo, node: ast.AST, depth: int = 0) -> bool:
+    """`node` of `fn` is evaluated once per instance of `owner`: it sits in no loop / comprehension, and `fn` is the
+    constructor or a private method with a single call site in the class that itself runs once."""
+    if depth > 6 or _loops_around(fn.node, node):
+        return False
+    if fn.name == "__init__":
+        return True
+    sites = [(m, c) for m in owner.methods.values() for c in ast.walk(m.node)
+             if isinstance(c, ast.Call) and isinstance(c.func, ast.Attribute) and u(c.func.value) == "self"
+             and c.func.attr == fn.name]
+    return fn.name.startswith("_") and len(sites) == 1 and _runs_once(owner, sites[0][0], sites[0][1], depth + 1)
+
+
+def _channel_made(org: Origin, owner: Any, e: ast.AST, fn: FuncInfo, anchor: ast.AST) -> tuple[ast.Call, bool] | None:
+    """The `Broadcast(...)` expression a channel value (a local, a parameter of a private helper, an attribute set in
+    the constructor) was made by, and whether the use at `anchor` is evaluated more often than that creation (a hop of
+    the value leaves a loop that encloses its use; for a channel kept in an attribute: the use does not run once)."""
+    got = org.follow(e, fn, anchor)
+    if got is None:
+        return None
+    made, _fn, many = got
+    if isinstance(made, ast.Attribute) and u(made.value) == "self":
+        d = org.attr_def(made)
+        got = org.follow(d[0], d[1], d[0]) if d is not None else None
+        if got is None:
+            return None
+        made, many = got[0], not _runs_once(owner, fn, anchor)
+    if not (isinstance(made, ast.Call) and u(made.func.value if isinstance(made.func, ast.Subscript) else made.func
+                                             ).split(".")[-1] == "Broadcast"):
+        return None
+    return made, many
+
+
+def _check_status_channel(run: Run, prog: Program, owner: Any, fn: FuncInfo, call: ast.Call, callee: Any,
+                          bound: dict[str, ast.AST]) -> None:
+    """"Notifications are sent only on change" holds at the pool's observation point only if every ComponentStatus a
+    tracker sends (C16.CHANGE: one per change) reaches the pool's status loop exactly once — the loop publishes once
+    per message received (C16.POOL).  A Broadcast channel hands every message to *each* of its receivers, so the
+    channel a tracker reports on must have exactly one receiver: one `new_receiver()` site in the owner, evaluated as
+    often as the channel itself is created (the channel may be per component or one for the whole pool)."""
+    sp = _status_param(prog, callee)
+    if sp is None:
+        return
+    site = f"{fn.qual} -> {callee.name}"
+    if sp not in bound:
+        raise AnalysisError(f"{fn.qual}: `{first_line_of(call)}` gives the tracker no status sender")
+    org = Origin(prog, owner)
+    snd = org.follow(bound[sp], fn, call)
+    if snd is None or not (isinstance(snd[0], ast.Call) and isinstance(snd[0].func, ast.Attribute)
+                           and snd[0].func.attr == "new_sender"):
+        raise AnalysisError(f"{fn.qual}: cannot tell on which channel the tracker built by `{first_line_of(call)}` reports "
+                            f"(`{u(bound[sp])}` is not visibly `<channel>.new_sender()`)")
+    ch = _channel_made(org, owner, snd[0].func.value, snd[1], snd[0])
+    if ch is None:
+        raise AnalysisError(f"{fn.qual}: cannot tell where the status channel `{u(snd[0].func.value)}` of {callee.name} is made")
+    chan = ch[0]
+    taps: list[tuple[ast.Call, FuncInfo, bool]] = []  # the receivers made of that channel: (site, in, made more often than it)
+    unknown: list[str] = []
+    for m in owner.methods.values():
+        for c in ast.walk(m.node):
+            if isinstance(c, ast.Call) and isinstance(c.func, ast.Attribute) and c.func.attr == "new_receiver":
+                got = _channel_made(org, owner, c.func.value, m, c)
+                if got is None:
+                    unknown.append(f"{m.qual}: `{u(c)}`")
+                elif got[0] is chan:
+                    taps.append((c, m, got[1]))
+    per_channel = [t for t in taps if t[2]]
+    ok = len(taps) == 1 and not per_channel
+    if ok and unknown:
+        raise AnalysisError(f"{fn.qual}: cannot tell of which channel {unknown[0]} is a receiver (it could be a second "
+                            "receiver of the trackers' status channel)")
+    shown = f"`{first_line_of(chan)}`"
+    if ok:
+        why = ""
+    elif not taps:
+        why = (f"no receiver is made of the channel {shown} the tracker reports on: its status changes never reach the pool's "
+               "status loop, the battery is never published as working / is never taken out again")
+    else:
+        t = per_channel[0] if per_channel else taps[1]
+        how = (f"`{u(t[0])}` ({t[1].qual}, line {t[0].lineno}) is evaluated once per component while the channel {shown} is "
+               "made once for all of them: the merged status receiver holds N receivers of that one channel"
+               if per_channel else
+               f"{len(taps)} receivers are made of each channel {shown} (lines {', '.join(str(x[0].lineno) for x in taps)})")
+        why = (f"{how}.  A Broadcast channel delivers every message to each of its receivers, so one status change of one "
+               "battery reaches the pool's status loop once per receiver and is published as that many identical "
+               "ComponentPoolStatus notifications: all but the first repeat the state already notified ('notifications are "
+               "sent only on change' is broken on the pool status channel; every consumer is re-triggered N times)")
+    run.check(ok, "C16.WIRE", fn.qual, f"{callee.name}({sp}=<sender of a channel with exactly one receiver>)",
+              f"constructing {callee.name}: {why}.  Each status channel needs exactly one `new_receiver()`, made where "
+              "(as often as) the channel is made — the same holds for a channel hoisted out of the per-component loop or "
+              "kept in an attribute while its receivers are still made per component, for a second receiver of the same "
+              "channel collected into the merge, and for a channel nobody listens to", node=call, file=fn.file,
+              instance=f"{site}: one receiver per status channel")
+
+
 def check_wiring(run: Run, prog: Program) -> None:  # noqa: C901
     """Every construction site of a component status tracker (per-component or pool) hands each constructor
     parameter the owner's value of the same role, keyword or positional; the battery tracker uses the two
@@ -1206,6 +1323,7 @@ def check_wiring(run: Run, prog: Program) -> None:  # noqa: C901
                 if family(owner):
                     run.analysed(fn.qual)
                 _check_outcome_channel(run, prog, owner, fn, call, callee, bound)
+                _check_status_channel(run, prog, owner, fn, call, callee, bound)
                 own = _ctor_params(prog, owner) or []
                 shared = [p for p in params if p in own]  # type: ignore[union-attr]
                 crossed = [(p, prov.of(a, fn)) for p, a in bound.items()
@@ -1348,13 +1466,24 @@ def located_controls(prog: Program) -> list[tuple[str, str, str, str, str]]:
         out.append(_control_at("the data timer is stopped once its stream is marked", tr.module, hit,
                                f"{u(hit)}; {owner_}.data_recv_timer.stop()", "C16.TIMER"))
     # the outcome channel: the receiver a tracker is given (the `new_receiver()` of a channel kept in an attribute)
-    rx = first([n for n in ast.walk(pool.node) if isinstance(n, ast.Call) and isinstance(n.func, ast.Attribute)
-                and n.func.attr == "new_receiver" and u(n.func.value).startswith("self.") and not n.args and not n.keywords])
+    rxs = [n for n in ast.walk(pool.node) if isinstance(n, ast.Call) and isinstance(n.func, ast.Attribute)
+           and n.func.attr == "new_receiver" and u(n.func.value).startswith("self.") and not n.args and not n.keywords]
+    org = Origin(prog, pool)
+    typed_rx = [n for n in rxs if (org.attr_def(n.func.value) or [None])[0] is not None  # type: ignore[union-attr]
+                and "SetPowerResult" in u(org.attr_def(n.func.value)[0])]  # type: ignore[index]
+    rx = first(typed_rx or rxs)  # of the channel declared to carry SetPowerResult, when that can be told
     if rx is not None:
         out.append(_control_at("each tracker buffers a single set-power result", pool.module, rx,
                                f"{u(rx.func)}(limit=1)", "C16.WIRE"))
         out.append(_control_at("the trackers only see outcomes with failures", pool.module, rx,
                                f"{u(rx)}.filter(lambda r: bool(r.failed))", "C16.WIRE"))
+    # the status channel: the receiver made of a channel that is not kept in an attribute (the per-component status
+    # channel) is made twice and both are merged
+    rx2 = first([n for n in ast.walk(pool.node) if isinstance(n, ast.Call) and isinstance(n.func, ast.Attribute)
+                 and n.func.attr == "new_receiver" and isinstance(n.func.value, ast.Name) and not n.args and not n.keywords])
+    if rx2 is not None:
+        out.append(_control_at("two receivers of each tracker's status channel are merged", pool.module, rx2,
+                               f"merge({u(rx2)}, {u(rx2)})", "C16.WIRE"))
     init = tr.methods.get("__init__")
     hit = first([s_ for s_ in stmts(tr) if isinstance(s_, (ast.Assign, ast.AnnAssign)) and s_.value is not None
                  and u(s_.targets[0] if isinstance(s_, ast.Assign) else s_.target) == "self._max_data_age"]) if init else None
@@ -1388,10 +1517,12 @@ def check(run: Run, prog: Program, tier: str) -> str:
     run.rule("C16.WIRE", "every construction site of a status tracker gives each constructor parameter the owner's value "
              "of the same role (keyword or positional); the battery tracker uses max_data_age for staleness and its "
              "timers and max_blocking_duration as the back-off cap; each tracker gets its own unwrapped receiver of the "
-             "channel the set-power results are published on, with at least the default buffer")
+             "channel the set-power results are published on, with at least the default buffer; the channel a tracker "
+             "reports its ComponentStatus on has exactly one receiver (made as often as the channel), so the pool's "
+             "status loop sees — and publishes — every change once")
     run_rules(run, prog)
     run.floor("C16.POOL", 4)
-    run.floor("C16.WIRE", 11)
+    run.floor("C16.WIRE", 12)
     run.floor("C16.SAFE", 14)
     run.floor("C16.TIMER", 20)
     run.floor("C16.CHANGE", 3)
